@@ -1,5 +1,6 @@
 """C04 (layering structure) and C06 (layout is a pure function of labels and options)."""
 import json
+import common
 from common import Report, build_and_audit, drive, fields, rng_for, leanchecker
 import gen_layout as G
 
@@ -24,7 +25,7 @@ def dist_opts(rng, labels):
 
 def run_c04(tier, seed, rep, only_prop=False, scale=1):
     import impl_layout as I
-    n1, n2, n3 = (700, 250, 120) if tier == "quick" else (12000, 4000, 2500)
+    n1, n2, n3 = (700, 250, 120) if tier == "quick" else tuple(common.count(tier, 0, x) for x in (12000, 4000, 2500))
     n1, n2, n3 = n1 * scale, n2 * scale, n3 * scale
     cs = []
     rng = rng_for(seed, "c04-dist")
@@ -124,7 +125,7 @@ def gen_history(rng, tier):
 
 def run_c06(tier, seed, rep, only_prop=False, scale=1):
     import impl_layout as I
-    n = (250 if tier == "quick" else 5000) * scale
+    n = common.count(tier, 250, 5000) * scale
     rng = rng_for(seed, "c06")
     lines, metas = [], []
     for k in range(n):
